@@ -218,7 +218,7 @@ def canon(b, o, depth=0):
                 o = d[3]["args"][0]
                 continue
         if d is None or d[2] != "assign":
-            return ("place", l, _projkey(proj))
+            return ("place", l, _projkey(proj, b))
         rv = d[3]["rv"]
         if rv["k"] == "use":
             q = op_place(rv["o"])
@@ -226,7 +226,7 @@ def canon(b, o, depth=0):
                 if not proj:
                     o = rv["o"]
                     continue
-                return ("place", l, _projkey(proj))
+                return ("place", l, _projkey(proj, b))
             o = {"cp": {"l": q["l"], "p": list(q["p"]) + proj}}
             continue
         if rv["k"] in ("ref", "rawptr") and proj and proj[0] == "*":
@@ -244,11 +244,11 @@ def canon(b, o, depth=0):
                 if len(proj) == 1:
                     o = sub
                     continue
-        return ("place", l, _projkey(proj))
+        return ("place", l, _projkey(proj, b))
     return ("other",)
 
 
-def _projkey(proj):
+def _projkey(proj, b=None):
     out = []
     for e in proj:
         if e == "*":
@@ -262,7 +262,15 @@ def _projkey(proj):
         elif "ci" in e:
             out.append("ci%d%s" % (e["ci"], "e" if e["fe"] else ""))
         elif "ix" in e:
-            out.append("ix%d" % e["ix"])
+            # an index temporary that holds a constant (`_4 = const 0_usize; (*_1)[_4]`) is that constant element
+            c = None
+            if b is not None:
+                d = b.single_def(e["ix"])
+                if d is not None and d[2] == "assign" and d[3]["rv"]["k"] == "use":
+                    k = op_const(d[3]["rv"]["o"])
+                    if k is not None and isinstance(k.get("int"), int):
+                        c = k["int"]
+            out.append("ci%d" % c if c is not None else "ix%d" % e["ix"])
         else:
             out.append(str(e))
     return tuple(out)
